@@ -31,6 +31,53 @@ def loads_corr(ctx, texts, label="LOADS", loose=False):
     return res
 
 
+def model_oracle(text):
+    """the executable model as the oracle for one script text: None when model and implementation give the
+    same outcome, else a message. (The model's `loads` refines the denotational specification, C02 theorems;
+    on the unchanged tree the two agree on every generated input.)"""
+    o = core.model_batch([core.cmd("LOADS", text, "/")])[0]
+    m = sx.dec_result(o)
+    ic, obj = core.impl_canon_loads(text)
+    st, d = canon.cmp_result(m, ic, False)
+    if st != "differ":
+        return None
+    if m[0] == "prog" and ic[0] == "prog":
+        return "the loaded program differs from the one the script denotes: " + "; ".join(d[:3])
+    if m[0] == "prog":
+        return "a script that denotes a program is refused: %s %r" % (ic[1:3], obj)
+    if ic[0] == "prog":
+        return "a script that must be refused (%s) is loaded as a program" % (m[1:4],)
+    return "refused in another way than the model prescribes: " + "; ".join(d[:2])
+
+
+def interaction_stream(ctx, n, label="interaction"):
+    """scripts from harness/interact.py (shared tiny name pool: redeclarations, indexing between two
+    declarations, empty loop then loop, shadowing); the executable model is the oracle"""
+    import interact
+    texts = [interact.script(ctx.rng) for _ in range(n)]
+    outs = core.model_batch([core.cmd("LOADS", t, "/") for t in texts])
+    nvalid = 0
+    for t, o in zip(texts, outs):
+        m = sx.dec_result(o)
+        ic, obj = core.impl_canon_loads(t)
+        st, d = canon.cmp_result(m, ic, False)
+        ctx.case(t, nontrivial=True)
+        ctx.count("%s:%s" % (label, "valid" if ic[0] == "prog" else "refused"))
+        if st == "ood":
+            ctx.ood += 1
+        elif st == "differ":
+            if m[0] == "prog" or ic[0] == "prog":
+                ctx.violation("%s: %s" % (label, model_oracle(t) or "; ".join(d[:3])), {"kind": "model_oracle", "text": t})
+            else:
+                ctx.disagree("LOADS(%s): %s" % (label, "; ".join(d[:3])),
+                             {"kind": "correspondence", "cmd": "LOADS", "text": t, "model": short(o, 2000),
+                              "impl": short(repr(ic), 2000)})
+        else:
+            ctx.traces += 1
+            nvalid += ic[0] == "prog"
+    return nvalid
+
+
 def same_program(a, b, loose=False, check_vars=False):
     """Differences between two canonical implementation programs (both from the implementation or
     from the python-side oracle): numbers to 1e-9 relative, symbolic values semantically."""
